@@ -83,10 +83,20 @@ type ErrorListener struct {
 	*antlr.DefaultErrorListener
 	Error error
 	Data  string
+	count int // number of syntax errors recorded in Error
 }
+
+// maxSyntaxErrors limits how many syntax errors are recorded. Every message
+// quotes the whole input and wraps all previous ones, so recording one error
+// per offending character needs memory quadratic in the size of the input.
+const maxSyntaxErrors = 10
 
 // SyntaxError is called by ANTLR when a syntax error occurs.
 func (l *ErrorListener) SyntaxError(_ antlr.Recognizer, _ any, line, column int, msg string, e antlr.RecognitionException) {
+	if l.count >= maxSyntaxErrors {
+		return
+	}
+	l.count++
 	if l.Error == nil {
 		l.Error = fmt.Errorf("line %d:%d %s >> text: %q", line, column, msg, l.Data)
 		return
